@@ -203,7 +203,17 @@ class Interp(EvalMixin, BuiltinMixin):
         return False
 
     def ex_With(self, node, fr):
-        raise Unsupported("with statement")
+        # `with open(...) as f:` only - the context manager of an io object: __enter__ returns the object itself and __exit__ closes it
+        # without suppressing an exception, so the statement runs its body with the name bound and lets every outcome through
+        for item in node.items:
+            ce = item.context_expr
+            if not (isinstance(ce, ast.Call) and isinstance(ce.func, ast.Name) and ce.func.id == "open"):
+                raise Unsupported("with statement over something else than open(...)")
+            v = self.ev(ce, fr)
+            self.trusted.add("with open(...) as f: the file object is its own context manager; closing it on exit suppresses nothing")
+            if item.optional_vars is not None:
+                self.bind_target(item.optional_vars, v, fr)
+        self.ex_block(node.body, fr)
 
     def ex_FunctionDef(self, node, fr):
         from .source import FuncInfo
@@ -848,6 +858,7 @@ class Interp(EvalMixin, BuiltinMixin):
             self.check_frame(con, sfr, entry, lab)
         else:
             run.reached("raise:" + exc)
+            sfr.parent = fr        # ghost access to the function's locals at the raise point, as for a normal return
             for (exc_name, lbl, text) in getattr(con, "exc_ensures_", []):
                 if self.is_subclass_exc(exc, exc_name):
                     run.oblige(lab(lbl), zbool(truth(self.ev(parse_expr(text), sfr))), kind="post")
